@@ -58,6 +58,14 @@ pub broadcast axiom fn ax_enc_dec(s: ST, c: Seq<u8>) ensures #[trigger] enc_out(
 
 pub broadcast group group_strobe { ax_st_strobe_of, ax_strobe_of_st, ax_prf_len, ax_mac_len, ax_enc_len, ax_dec_len, ax_dec_enc, ax_enc_dec }
 
+// S4 (first-block stream structure): an encryption issued directly after a completed operation XORs
+// the first <= 166 bytes (rate of Strobe-128/1600) with bytes that depend on the state only.
+// Used ONLY to derive the C03 refutation; smoke-tested against strobe-rs by the native replay.
+pub uninterp spec fn keystream(s: ST) -> Seq<u8>;
+pub broadcast axiom fn ax_s4(s: ST, m: Seq<u8>, i: int)
+    requires 0 <= i < m.len(), i < 166
+    ensures keystream(s).len() == 166, #[trigger] enc_out(s, m)[i] == m[i] ^ keystream(s)[i];
+
 // S5 (ideal hash) for OUTPUTS: used only by the "different => different / rejected" lemmas,
 // never by a function contract.
 pub broadcast axiom fn ax_s5_prf(s1: ST, s2: ST, n: nat)
@@ -65,6 +73,10 @@ pub broadcast axiom fn ax_s5_prf(s1: ST, s2: ST, n: nat)
     ensures s1 == s2;
 pub broadcast axiom fn ax_s5_mac(s1: ST, s2: ST, n: nat)
     requires n >= 16, #[trigger] mac_out(s1, n) == #[trigger] mac_out(s2, n)
+    ensures s1 == s2;
+/// a 128-bit prefix of an (at least 16-byte) PRF output already determines the state
+pub broadcast axiom fn ax_s5_prf_prefix(s1: ST, s2: ST, n: nat)
+    requires n >= 16, #[trigger] prf_out(s1, n).subrange(0, 16) == #[trigger] prf_out(s2, n).subrange(0, 16)
     ensures s1 == s2;
 pub broadcast group group_s5 { ax_s5_prf, ax_s5_mac }
 
